@@ -1,7 +1,9 @@
 """C17 — embedded file bytes and file metadata are exact (P-tier: hashing kernel)."""
-from . import hashing
+from . import hashing, overlay
 
 
 def build(reg):
     specs = hashing.add_all(reg)
-    return {"verify": specs, "lemmas": [], "trusted": hashing.TRUSTED, "assumptions": ["bytes modelled as z3 strings over code points 0..255"]}
+    # IH5 driver: what a copy copies and what counts as a deletion marker (embedded bytes must neither be taken from another node nor vanish)
+    specs = specs + [x for x in overlay.add_writers(reg) + overlay.add_copy_move(reg) if "C17" in x.props or x.qual in ("IH5Group.copy", "IH5Group.move")]
+    return {"verify": specs, "lemmas": [], "trusted": hashing.TRUSTED + [overlay.T1_WRITE, overlay.T_NUMPY], "assumptions": ["bytes modelled as z3 strings over code points 0..255"]}
